@@ -24,7 +24,8 @@
 EXTENDS Integers, Sequences, FiniteSets, TLC
 
 CONSTANTS Classes,      \* set of class records (see ColumnWriterMC)
-          RowCounts, NullPats, ValPats, Modes, RppWants, Versions, RgOffsets, StatsModes
+          RowCounts, NullPats, ValPats, Modes, RppWants, Versions, RgOffsets, StatsModes,
+          Codecs        \* compression option: the layout (page cuts are by uncompressed size) and the cells do not depend on it
 
 NULL == -1
 NV   == 7                                   \* abstract values 0..6
@@ -50,9 +51,17 @@ Rejected(inp) == /\ ~Optional(inp) /\ HasMissing(inp)
                  /\ inp.cls.sentinel \in {"OBJ", "MASK", "CAT"}  \* None / pd.NA / code -1 have no in-band value
 (* the page budget the caller sets (writer.MAX_PAGE_SIZE): the smallest byte count that fits `rppwant` elements *)
 PerElem8(inp) == inp.cls.bpe8 + (IF Optional(inp) THEN 1 ELSE 0)       \* eighths of a byte per element
-PageBytes(inp) == ((inp.rppwant * PerElem8(inp)) + 7) \div 8
+(* never below 9 bytes: the neighbouring int64 column of the replay frame needs one element per page *)
+PageBytes(inp) == LET b == ((inp.rppwant * PerElem8(inp)) + 7) \div 8 IN IF b < 9 THEN 9 ELSE b
 (* _rows_per_page: int(page_size // (bytes_per_element + has_nulls / 8)), in eighths to stay in integers *)
 Rpp(inp) == (PageBytes(inp) * 8) \div PerElem8(inp)
+(* bytes_per_element of text is estimated from the chunk's non-null cells: mean length + 4, and 0 / 4 + 4 = 4 bytes when
+   the chunk holds no non-null cell *)
+ChunkAllNull(inp, start, len) == \A i \in (start + 1)..(start + len) : Cell(inp, i) = NULL
+RppChunk(inp, start, len) ==
+  IF inp.cls.sentinel = "OBJ" /\ ChunkAllNull(inp, start, len)
+  THEN (PageBytes(inp) * 8) \div (32 + (IF Optional(inp) THEN 1 ELSE 0))
+  ELSE Rpp(inp)
 WantStats(inp) == inp.stats = "true" \/ (inp.stats = "auto" /\ inp.cls.statsAuto)
 
 (* iter_dataframe(data, row_group_offsets): list of row-group start offsets (0-based) *)
@@ -72,7 +81,7 @@ VARIABLES inp,     \* the chosen input
 vars == <<inp, pc, rgs, cur, todo>>
 
 Inputs == [cls : Classes, n : RowCounts, nullpat : NullPats, valpat : ValPats, mode : Modes,
-           rppwant : RppWants, v : Versions, rgo : RgOffsets, stats : StatsModes]
+           rppwant : RppWants, v : Versions, rgo : RgOffsets, stats : StatsModes, codec : Codecs]
 
 Sensible(i) == /\ (i.nullpat # "none" => i.cls.sentinel # "NONE")       \* the dtype can hold a missing cell
                /\ Rpp(i) >= 1                                           \* page at least one element
@@ -116,7 +125,8 @@ BeginChunk ==
 DataPage ==
   /\ pc = "page" /\ cur.next < cur.start + cur.len
   /\ LET a == cur.next
-         b == IF a + Rpp(inp) < cur.start + cur.len THEN a + Rpp(inp) ELSE cur.start + cur.len
+         rpp == RppChunk(inp, cur.start, cur.len)
+         b == IF a + rpp < cur.start + cur.len THEN a + rpp ELSE cur.start + cur.len
          nn == IF cur.optional THEN Cardinality({i \in (a + 1)..b : Cell(inp, i) = NULL}) ELSE 0
          pg == [nvals |-> b - a, nnulls |-> nn, v |-> inp.v,
                 def |-> IF ~cur.optional THEN "none" ELSE IF nn = 0 THEN "rle" ELSE "bp",
